@@ -450,9 +450,10 @@ func (engine) Generate(rng *rand.Rand, tier string) []core.Case {
 	q := probeQuirks()
 	nCases, nOps := 70, 55
 	if tier == "thorough" {
-		nCases, nOps = 500, 150
+		nCases, nOps = 220, 110
 	}
 	var cases []core.Case
+	cases = append(cases, directed(rng, q)...)
 	for c := 0; c < nCases; c++ {
 		var seed []byte
 		tags := map[string]bool{}
@@ -523,6 +524,38 @@ func (engine) Generate(rng *rand.Rand, tier string) []core.Case {
 		cases = append(cases, exhaustive(rng, q)...)
 	}
 	return cases
+}
+
+// directed: a few structured scenarios that random interleavings reach only with low probability.
+func directed(rng *rand.Rand, q string) []core.Case {
+	var out []core.Case
+	mk := func(tag string, lines ...string) {
+		seed := make([]byte, 32)
+		rng.Read(seed)
+		ops := []string{fmt.Sprintf("create seed=%x q=%s", seed, q)}
+		out = append(out, core.Case{Ops: append(ops, lines...), Tags: []string{"directed." + tag}})
+	}
+	for _, sc := range []string{"84:0", "44:0", "49:0", "86:0"} {
+		// addresses of two accounts created while locked, in both orders, then unlocked (derive-on-unlock)
+		mk("derive-on-unlock-two-accounts", "unlock p=0", "newacct s="+sc+" name=2", "newacct s="+sc+" name=3", "lock",
+			"next s="+sc+" a=1 n=2 int=0 h=1", "next s="+sc+" a=0 n=2 int=0 h=3", "next s="+sc+" a=2 n=1 int=1 h=5",
+			"next s="+sc+" a=0 n=1 int=1 h=6", "derive s="+sc+" a=1 ac=2147483649 b=0 i=5 h=7", "derive s="+sc+" a=0 ac=2147483648 b=1 i=4 h=8",
+			"unlock p=0", "privkey h=1", "privkey h=2", "privkey h=3", "privkey h=4", "privkey h=5", "privkey h=6", "privkey h=7", "privkey h=8",
+			"lookup s="+sc+" ref=c:0:0:1 h=9", "privkey h=9", "lookup s="+sc+" ref=c:1:0:0 h=10", "privkey h=10")
+		// internal issued before / beyond external, restart, continue: indices must go on consecutively
+		mk("internal-before-external-restart", "unlock p=0", "next s="+sc+" a=0 n=3 int=1 h=1", "next s="+sc+" a=0 n=2 int=0 h=4",
+			"extend s="+sc+" a=0 last=6 int=1", "next s="+sc+" a=0 n=1 int=0 h=6", "restart", "props s="+sc+" a=0",
+			"next s="+sc+" a=0 n=2 int=0 h=7", "next s="+sc+" a=0 n=1 int=1 h=9", "unlock p=0", "lookup s="+sc+" ref=c:0:0:2 h=10", "privkey h=10",
+			"restart", "props s="+sc+" a=0", "next s="+sc+" a=0 n=1 int=0 h=11")
+		// imports in every lock state, conversion, reopen, imports again
+		mk("imports-lock-states", "importpriv s="+sc+" k=1 comp=1 h=1", "importscript s="+sc+" k=1 kind=0 secret=1 h=2",
+			"importscript s="+sc+" k=2 kind=1 secret=0 h=3", "importpub s="+sc+" k=2 h=4", "unlock p=0", "importpriv s="+sc+" k=3 comp=0 h=5",
+			"importscript s="+sc+" k=3 kind=1 secret=1 h=6", "importscript s="+sc+" k=4 kind=2 secret=1 h=7", "lock", "importpriv s="+sc+" k=5 comp=1 h=8",
+			"lookup s="+sc+" ref=k:5:1 h=9", "unlock p=0", "privkey h=5", "script h=6", "convertwo", "importpriv s="+sc+" k=6 comp=1 h=10",
+			"restart", "importpriv s="+sc+" k=7 comp=1 h=11", "importscript s="+sc+" k=8 kind=1 secret=1 h=12", "importscript s="+sc+" k=9 kind=1 secret=0 h=13",
+			"lookup s="+sc+" ref=k:3:0 h=14", "privkey h=14", "lookup s="+sc+" ref=k:7:1 h=15", "privkey h=15", "unlock p=0")
+	}
+	return out
 }
 
 // exhaustive: all orders of length ≤ 4 over {next, extend, lock, unlock, lookup+privkey, restart} on one branch.
